@@ -35,7 +35,7 @@ func init() {
 		CPULimit: 120,
 		Count: func(c *Ctx) int {
 			if c.Thorough() {
-				return 1600000
+				return 800000
 			}
 			return 32000
 		},
